@@ -37,7 +37,7 @@ TRI = ['unset', 'true', 'false']
 def route_sig(r):
     return 'file=%s,env=%s,prog=%s,cfgfile=%s,interval=%s/%s,idfile=%s' % (
         r['file'], r['env'], r['prog'], 'yes' if r['hasFile'] else 'no', r.get('ival', 'custom'), r.get('ivalBy', 'prog'),
-        r.get('idfile', 'ok'))
+        r.get('idfile', 'ok')) + ',entry=' + r.get('entry', 'api')
 
 
 def judge(rep, trace, behaviours, level, stats):
@@ -56,18 +56,23 @@ def judge(rep, trace, behaviours, level, stats):
             firsts[key] = (ln, action)
     for (tid, name), (ln, action) in sorted(firsts.items()):
         b = by_id.get(tid)
-        r = b['cfg']['route'] if b else {'file': '-', 'env': '-', 'prog': '-', 'hasFile': False, 'ival': '-', 'ivalBy': '-', 'idfile': '-'}
+        r = b['cfg']['route'] if b else {'file': '-', 'env': '-', 'prog': '-', 'hasFile': False, 'ival': '-', 'ivalBy': '-', 'idfile': '-', 'entry': '-'}
         rep.classify('C19|%s|%s|%s|%s' % (name, level, action, route_sig(r)),
                      '%s fails at step %s (line %d) for route %s' % (name, action, ln, route_sig(r)),
                      {'level': level, 'behaviours': [b] if b else behaviours[:1]})
     stats['lines'] = stats.get('lines', 0) + (res['validated'] or 0)
 
 
-def execute(d, level, behaviours, par):
+def execute(d, level, behaviours, par, guarded=False):
+    if guarded:
+        return execute_guarded(d, level, behaviours)
     stim = os.path.join(d, level + '-stim.json')
     trace = os.path.join(d, level + '.ndjson')
     core.write_json(stim, {'behaviours': behaviours})
-    if level == 'server':
+    if level == 'cli':
+        rc, out, wall = core.go_test('.', '^TestVerifC19CLI$', {'VERIF_STIMULI': stim, 'VERIF_TRACE_OUT': trace},
+                                     timeout=900, subs=['c19'])
+    elif level == 'server':
         rc, out, wall = core.go_test('server', '^TestVerifC19Server$',
                                      {'VERIF_STIMULI': stim, 'VERIF_TRACE_OUT': trace, 'VERIF_PAR': str(par)},
                                      timeout=1500, subs=['c19'])
@@ -76,6 +81,57 @@ def execute(d, level, behaviours, par):
                                      {'VERIF_STIMULI': stim, 'VERIF_TRACE_OUT': trace}, timeout=900, subs=['c19'])
     if rc != 0 or not os.path.exists(trace):
         raise core.Inconclusive('%s harness failed rc=%s: %s' % (level, rc, out[-3000:]))
+    return trace
+
+
+def execute_guarded(d, level, behaviours):
+    """One server / collector at a time with an intent file.  A collector that is (wrongly) started with a
+    non-positive interval panics in its own goroutine (time.NewTicker) and kills the test process: the runner
+    records that as what it is - a collector was running in the pending step - and carries on with the remaining
+    behaviours in a fresh process; TLC judges the recorded line (C19_NoCollector)."""
+    import json
+    import re
+    out_lines, unattributed, deaths = [], 0, 0
+    remaining = list(behaviours)
+    intent = os.path.join(d, level + '-intent.json')
+    while remaining:
+        stim = os.path.join(d, level + '-g-stim.json')
+        part = os.path.join(d, level + '-g-part.ndjson')
+        for f in (part, intent):
+            if os.path.exists(f):
+                os.remove(f)
+        core.write_json(stim, {'behaviours': remaining})
+        env = {'VERIF_STIMULI': stim, 'VERIF_TRACE_OUT': part, 'VERIF_INTENT': intent}
+        if level == 'server':
+            rc, out, wall = core.go_test('server', '^TestVerifC19Server$', env, timeout=1500, subs=['c19'])
+        else:
+            rc, out, wall = core.go_test('server/telemetry', '^TestVerifC19Collector$', env, timeout=900, subs=['c19'])
+        got = core.read_ndjson(part) if os.path.exists(part) else []
+        unattributed += sum(e.get('unattributed', 0) for e in got if e['a'] == 'Global')
+        got = [e for e in got if e['a'] != 'Global']
+        out_lines += got
+        if rc == 0:
+            break
+        died = re.search(r'^panic: .*$', out, re.M)
+        if (not died or 'telemetry.(*Collector)' not in out or 'INCONCLUSIVE' in out or 'test timed out' in out
+                or not os.path.exists(intent)):
+            raise core.Inconclusive('%s harness failed rc=%s: %s' % (level, rc, out[-3000:]))
+        deaths += 1
+        it = json.load(open(intent))
+        mine = [e for e in got if e.get('t') == it['t']]
+        if len(mine) != it['step'] + 1:
+            raise core.Inconclusive('%s process died outside a pending step: %s' % (level, out[-2000:]))
+        out_lines.append({'a': it['a'], 't': it['t'], 'route': it['route'], 'st': dict(it['st'], collector=True),
+                          'obs': {'a': it['a'], 'err': ''}, 'died': died.group(0)[:200]})
+        idx = [k for k, b in enumerate(remaining) if b['id'] == it['t']][0]
+        remaining = remaining[idx + 1:]
+        if deaths >= 6:
+            break
+    trace = os.path.join(d, level + '-g.ndjson')
+    with open(trace, 'w') as fh:
+        for e in out_lines:
+            fh.write(json.dumps(e) + '\n')
+        fh.write(json.dumps({'a': 'Global', 't': 0, 'unattributed': unattributed, 'total': 0}) + '\n')
     return trace
 
 
@@ -91,13 +147,17 @@ def lifecycles_from(sims):
     return list(out.values())
 
 
+TRUE_SP = ['true', 'TRUE', '1', 't']                                            # Telemetry!TrueSp
+FALSE_SP = ['false', 'FALSE', 'False', '0', 'f', 'off', 'no', 'Off', 'NO']       # Telemetry!FalseSp
+
+
 def doc_enabled(r):
     if r['prog'] != 'unset':
         return r['prog'] == 'true'
     if r['env'] != 'unset':
-        return r['env'] == 'true'
+        return r['env'] in TRUE_SP
     if r['hasFile'] and r['file'] != 'unset':
-        return r['file'] == 'true'
+        return r['file'] in TRUE_SP
     return True
 
 
@@ -109,12 +169,22 @@ def feasible(r):
         return False
     if r['ival'] == 'default' and r['ivalBy'] != 'prog':
         return False
+    if r.get('entry', 'api') == 'cli' and not (r['prog'] == 'unset' and r['idfile'] == 'ok' and
+                                               (r['ival'] == 'default' or r['ivalBy'] == 'file')):
+        return False
     return True
 
 
 def adapt(steps, route):
     """an interval can only be waited for when it is short: Tick steps are kept for the custom interval only"""
-    return [s for s in steps if s['a'] != 'Tick' or route['ival'] == 'custom']
+    out = [s for s in steps if s['a'] != 'Tick' or route['ival'] == 'custom']
+    if route.get('level') != 'collector':
+        out = [s for s in out if s['a'] != 'Age']      # the collector's clock can only be moved in package telemetry
+    if route.get('entry') == 'cli':
+        out = [s for s in out if s['a'] in ('LoadConfig', 'Start', 'Tick')]
+        if 'Stop' in [s['a'] for s in steps]:
+            out = out[:[s['a'] for s in out].index('Start') + 1] if 'Start' in [s['a'] for s in out] else out
+    return out
 
 
 def run(rep, tier, seed, replay):
@@ -123,7 +193,8 @@ def run(rep, tier, seed, replay):
     if replay:
         r = replay['replay']
         with core.scratch('c19') as d:
-            judge(rep, execute(d, r['level'], r['behaviours'], par), r['behaviours'], r['level'], stats)
+            judge(rep, execute(d, r['level'], r['behaviours'], par, guarded=(r['level'] != 'cli')), r['behaviours'],
+                  r['level'], stats)
         rep.cov['rule'] = 'replay of a saved behaviour'
         rep.cov['samples'] = r['behaviours'][:1]
         return
@@ -145,7 +216,12 @@ def run(rep, tier, seed, replay):
         head = full[:6]
         return rng.choice(head) if rng.random() < 0.75 else rng.choice(full)
 
-    base = [{'file': f, 'env': e, 'prog': p, 'hasFile': h} for f in TRI for e in TRI for p in TRI for h in (True, False)]
+    def sp(v):
+        return v if v == 'unset' else rng.choice(TRUE_SP if v == 'true' else FALSE_SP)
+
+    # the 54 configuration routes; the file / environment values are spelled in one of the accepted ways
+    base = [{'file': sp(f), 'env': sp(e), 'prog': p, 'hasFile': h, 'entry': 'api'}
+            for f in TRI for e in TRI for p in TRI for h in (True, False)]
     server_routes = []
     # (1) every configuration route with a short interval (set through the file or programmatically), usable id file
     for r in base:
@@ -154,12 +230,16 @@ def run(rep, tier, seed, replay):
     # (2) the interval dimension: zero / negative (only where telemetry must be silent) and default, by file and by prog
     silent = [r for r in base if not doc_enabled(r)]
     kinds = {'prog': [r for r in silent if r['prog'] == 'false'],
-             'env': [r for r in silent if r['prog'] == 'unset' and r['env'] == 'false'],
+             'env': [r for r in silent if r['prog'] == 'unset' and r['env'] in FALSE_SP],
              'file': [r for r in silent if r['prog'] == 'unset' and r['env'] == 'unset']}
     n_iv = 1 if tier == 'quick' else 4
     for ival in ('zero', 'negative'):
         for by in ('file', 'prog'):
-            for kind, lst in sorted(kinds.items()):
+            kl = sorted(kinds.items())
+            if tier == 'quick':      # two of the three disabling kinds per (interval, by); all three over the four pairs
+                k0 = (('zero', 'negative').index(ival) * 2 + ('file', 'prog').index(by)) % 3
+                kl = [kl[k0], kl[(k0 + 1) % 3]]
+            for kind, lst in kl:
                 cands = [dict(r, ival=ival, ivalBy=by, idfile='ok') for r in lst]
                 cands = [r for r in cands if feasible(r)]
                 rng.shuffle(cands)
@@ -172,27 +252,65 @@ def run(rep, tier, seed, replay):
     rng.shuffle(bad)
     server_routes += [r for r in bad if doc_enabled(r)][:3 * n_iv] + [r for r in bad if not doc_enabled(r)][:n_iv]
     per_route = 1 if tier == 'quick' else 2
-    server_b, coll_b = [], []
+    server_b, coll_b, cli_b = [], [], []
+    short = [{'a': 'LoadConfig'}, {'a': 'Start'}, {'a': 'Stop'}]
+    # (4) every spelling of "off" on the file route and on the environment route (and every spelling of "on" once)
+    for k, v in enumerate(FALSE_SP):
+        for r in ({'file': v, 'env': 'unset', 'prog': 'unset', 'hasFile': True},
+                  {'file': rng.choice(TRUE_SP) if k % 2 else 'unset', 'env': v, 'prog': 'unset', 'hasFile': k % 2 == 1}):
+            r = dict(r, ival='custom', ivalBy='prog', idfile='ok', entry='api')
+            server_b.append({'id': len(server_b) + 1, 'cfg': {'route': r}, 'steps': list(short)})
+    for v in TRUE_SP:
+        r = {'file': rng.choice(FALSE_SP), 'env': v, 'prog': 'unset', 'hasFile': True, 'ival': 'custom', 'ivalBy': 'prog',
+             'idfile': 'ok', 'entry': 'api'}
+        server_b.append({'id': len(server_b) + 1, 'cfg': {'route': r}, 'steps': list(short)})
+    # (5) the command line entry point (main.start through the cli.App), with and without --config
+    cli_routes = [{'file': 'unset', 'env': rng.choice(FALSE_SP), 'hasFile': False},
+                  {'file': 'unset', 'env': rng.choice(FALSE_SP), 'hasFile': True},
+                  {'file': rng.choice(TRUE_SP), 'env': rng.choice(FALSE_SP), 'hasFile': True},
+                  {'file': rng.choice(FALSE_SP), 'env': 'unset', 'hasFile': True},
+                  {'file': 'unset', 'env': 'unset', 'hasFile': False},
+                  {'file': rng.choice(FALSE_SP), 'env': rng.choice(TRUE_SP), 'hasFile': True}]
+    if tier != 'quick':
+        cli_routes += [{'file': sp(f), 'env': sp(e), 'hasFile': h} for f in TRI for e in TRI for h in (True, False)]
+    for r in cli_routes:
+        r = dict(r, prog='unset', ival='default', ivalBy='prog', idfile='ok', entry='cli')
+        if not feasible(r):
+            raise core.Inconclusive('infeasible route generated: %s' % r)
+        cli_b.append({'id': len(cli_b) + 1, 'cfg': {'route': r}, 'steps': [{'a': 'LoadConfig'}, {'a': 'Start'}]})
     for r in server_routes:
         if not feasible(r):
             raise core.Inconclusive('infeasible route generated: %s' % r)
         for _ in range(per_route):
-            server_b.append({'id': len(server_b) + 1, 'cfg': {'route': r}, 'steps': adapt(cycle(), r)})
+            # zero / negative intervals run one at a time (guarded): a short life cycle keeps the quick tier in budget
+            steps = list(short) if r['ival'] in ('zero', 'negative') and tier == 'quick' else adapt(cycle(), r)
+            server_b.append({'id': len(server_b) + 1, 'cfg': {'route': r}, 'steps': steps})
     # collector alone: programmatic switch x interval x id file, every life cycle without user data
+    def aged_tick(c):      # a report is made after the collector has aged
+        names = [x['a'] for x in c]
+        return 'Age' in names and 'Tick' in names[names.index('Age'):]
     ccycles = [c for c in full if 'UserData' not in [x['a'] for x in c]]
+    ccycles.sort(key=lambda c: (not aged_tick(c), -len(c), core.sha(c)))
+    if not any(aged_tick(c) for c in ccycles[:2]):
+        raise core.Inconclusive('simulation produced no life cycle with a report after ageing')
     for prog in TRI:
         for ival in ('custom', 'default', 'zero', 'negative'):
             for idfile in ('ok', 'unusable'):
                 r = {'file': 'unset', 'env': 'unset', 'prog': prog, 'hasFile': False, 'ival': ival, 'ivalBy': 'prog',
-                     'idfile': idfile}
+                     'idfile': idfile, 'entry': 'api', 'level': 'collector'}
                 if not feasible(r):
                     continue
                 for c in ccycles[:3 if tier == 'quick' else 12]:
                     coll_b.append({'id': len(coll_b) + 1, 'cfg': {'route': r}, 'steps': adapt(c, r)})
     with core.scratch('c19') as d:
-        judge(rep, execute(d, 'collector', coll_b, par), coll_b, 'collector', stats)
-        judge(rep, execute(d, 'server', server_b, par), server_b, 'server', stats)
-    allb = server_b + coll_b
+        judge(rep, execute(d, 'collector', coll_b, par, guarded=True), coll_b, 'collector', stats)
+        risky = [b for b in server_b if b['cfg']['route']['ival'] in ('zero', 'negative')]
+        normal = [b for b in server_b if b['cfg']['route']['ival'] not in ('zero', 'negative')]
+        judge(rep, execute(d, 'server', normal, par), normal, 'server', stats)
+        judge(rep, execute(d, 'server', risky, par, guarded=True), risky, 'server', stats)
+        judge(rep, execute(d, 'cli', cli_b, par), cli_b, 'cli', stats)
+    allb = server_b + coll_b + cli_b
+    rep.cov['cli_behaviours'] = len(cli_b)
     rep.cov['traces_validated_against_impl'] = len(allb)
     rep.cov['trace_lines_validated'] = stats.get('lines', 0)
     rep.cov['evaluations'] = len(allb)
